@@ -54,12 +54,23 @@ fn qr(q: Option<Limbs>, r: &[u64]) -> Out {
 }
 
 fn signed_values(n: usize, ctx: &Ctx, cap: usize) -> Vec<Limbs> {
-    let mut v = if n <= 2 { full(n, &l9()) } else { runs(n, &l5(), 2) };
+    let th = ctx.thorough();
+    let mut v = match (th, n) {
+        (true, 1 | 2) => full(n, &l13(ctx.seed)),
+        (true, 3 | 4) => {
+            let mut v = full(n, &l5());
+            v.extend(runs(n, &l9(), 3));
+            v
+        }
+        (true, _) => runs(n, &l9(), 3),
+        (false, 1 | 2) => full(n, &l9()),
+        (false, _) => runs(n, &l5(), 2),
+    };
     let bits_ = 64 * n;
     let min: BigInt = -(BigInt::one() << (bits_ - 1));
     let max: BigInt = (BigInt::one() << (bits_ - 1)) - 1;
     let mut sp = vec![min.clone(), &min + 1, BigInt::from(-1), BigInt::zero(), BigInt::one(), max.clone(), &max - 1, BigInt::from(2), BigInt::from(-2), BigInt::from(3), BigInt::from(-3)];
-    for j in (0..bits_ - 1).filter(|j| j % 64 <= 1 || j % 64 >= 62 || j % 8 == 5) {
+    for j in (0..bits_ - 1).filter(|j| th || j % 64 <= 1 || j % 64 >= 62 || j % 8 == 5) {
         sp.push(BigInt::one() << j);
         sp.push(-(BigInt::one() << j));
         sp.push((BigInt::one() << j) + 1);
@@ -89,7 +100,7 @@ fn fam_int<const N: usize, const M: usize>(ctx: &Ctx) {
         return;
     }
     let wname = format!("Int<{N}>/<{M}>");
-    let cap = if ctx.thorough() { 2500 } else { 800 };
+    let cap = if ctx.thorough() { 1700 } else { 800 };
     let ns = signed_values(N, ctx, cap);
     let mut ds = signed_values(M, ctx, cap);
     // NEAR(q*d) dividends are produced by adding q*d, q*d+-1 for structured (q, d) below
@@ -390,6 +401,13 @@ fn main() {
     fam_int::<2, 4>(ctx);
     fam_int::<8, 4>(ctx);
     fam_int::<4, 1>(ctx);
+    if ctx.thorough() {
+        fam_int::<3, 3>(ctx);
+        fam_int::<3, 2>(ctx);
+        fam_int::<16, 16>(ctx);
+        fam_int::<16, 8>(ctx);
+        fam_int::<8, 16>(ctx);
+    }
     let _ = Uint::<1>::ZERO;
     std::process::exit(ctx.finish());
 }
